@@ -27,6 +27,7 @@ class Check:
         self.functions: set[str] = set()
         self.calls_resolved = 0
         self.calls_unresolved = 0
+        self.refusals: list[str] = []
 
     # -- recording ----------------------------------------------------------
     def ok(self, rule: str, construct: str, where: str = "", detail: str = "", trivial: bool = False):
@@ -56,6 +57,16 @@ class Check:
     def require(self, cond, msg: str):
         if not cond:
             raise AnalysisError(f"{self.prop}: {msg}")
+
+    REFUSED = object()
+
+    def call(self, rule_fn, *args, **kw):
+        """Run one rule; an AnalysisError refuses that rule only, so the other rules still report."""
+        try:
+            return rule_fn(*args, **kw)
+        except AnalysisError as e:
+            self.refusals.append(f"{getattr(rule_fn, '__name__', rule_fn)}: {e}")
+            return self.REFUSED
 
     def floor(self, rule: str, n: int):
         have = sum(1 for o in self.obligations if o["rule"] == rule)
@@ -152,6 +163,7 @@ def finish(chk: Check, meta: dict, t0: float, seed: int, extra_cov: dict | None 
         samples=samples[:60],
         known_findings_open=[f"{f['rule']} {f['construct']}" for f in old],
         notes=chk.notes[:40],
+        rules_refused=list(chk.refusals),
         exhaustive=True,
         trusted_base=meta.get("trusted_base", []),
         checker_cmd=meta.get("checker_cmd", ""),
